@@ -32,6 +32,7 @@ PROPS = {
     "C13": dict(world="table", quick=45, thorough=480, chunk=1200, level="fault_enumeration"),
     "C14": dict(world="table", quick=45, thorough=480, chunk=1200),
     "C15": dict(world="table", quick=45, thorough=480, chunk=1200),
+    "C16": dict(world="memb", worlds=[("memb", 0.5), ("table", 0.3), ("seat", 0.2)], quick=60, thorough=540, chunk=1500),
     "C18": dict(world="actor", quick=45, thorough=480, chunk=1200),
     "C19": dict(world="actor", quick=45, thorough=480, chunk=1200),
     "C20": dict(world="actor", quick=45, thorough=480, chunk=1200),
